@@ -6,7 +6,7 @@ from props import treelib as T
 from props.common import quiet_ccp
 
 ID = "C04"
-LEAN_MODULES = ["Ccp.Props.C04"]
+LEAN_MODULES = ["Ccp.Props.C04", "Ccp.Props.RxC04"]
 RULE = ("configs: random trees (depth <= 4, fan-out <= 4, at most ~40 lines, indentation step 1/2/4) over a small per-config text pool so that "
         "duplicate texts occur under one and under several parents, texts that are prefixes of others (Eth1/Eth10, a/ab/abc, vlan 10/100), "
         "whitespace variants (two blanks, tab), texts containing ^ $ | ( . * + [ \\, comment lines, blank lines, banner blocks with '' body "
@@ -29,6 +29,7 @@ LEVEL_TEXT = ("Theorems (Lean 4, all trees, all oracle rows): find_objects = asc
               "two-argument form at recurse=False for either value of reverse and any flag reading of the rows; has_child_with = some matching direct/any-depth child. The model is tied to the code by differential runs (tree dump and answer of every query compared).")
 LEVEL_NOTE = ("Trusted: Lean kernel, standard axioms, the harness. Python's re is an oracle parameter (rows), universally quantified in the theorems and computed with re "
               "directly in the runs. The tree model is shared with C01-C03; the forest invariant is a hypothesis here (proved for parse by C03).")
+LEVEL_NOTE += (" " + "regexes_as_modelled (Ccp.RxC04): the templates behind the flag readings of the oracle rows (re.sub(r'\\s+', <backslash backslash s+>) of build_space_tolerant_regex, re.sub(r'\\\\(\\s)', r'\\1', re.escape(..)) of escape_linespec, '^(?:%s)$' of _find_line_OBJ) are re-read from /repo's AST on every run and proved equal to the ones the TRUSTED flag reading was written for.")
 ASSUMPTIONS = ["regular expressions compile; lines contain no line break (so '^(?:p)$' with search is fullmatch)",
                "no 64-bit hash collision between distinct (linenum, text) pairs (set de-duplication after F03)",
                "regex_flags=0, regex_groups=False"]
